@@ -130,6 +130,14 @@ def handle (st : DState) (req : Sexp) : DState × Sexp :=
       if k < ops.length then ({ st with fs := crash st.fs ops k n }, .list [.atom "ok", Sexp.ofNat ops.length])
       else (st, .list [.atom "err", .atom "crash-point-out-of-range", Sexp.ofNat ops.length])
     | _, _, _ => (st, bad)
+  | .list [.atom "fault", c, k, n] =>
+    match call? c, k.asNat?, optNat? n with
+    | some c, some k, some n =>
+      let ops := c.ops st.fs
+      if k < ops.length then
+        ({ st with fs := excFault st.fs c k n }, .list [.atom "ok", Sexp.ofNat ops.length, .list ((c.cleanup st.fs k).map opS)])
+      else (st, .list [.atom "err", .atom "fault-point-out-of-range", Sexp.ofNat ops.length])
+    | _, _, _ => (st, bad)
   | .list [.atom "readlog", .atom t] =>
     (st, match readLog t.toList with
       | .ok ms => outS (.log ms)
